@@ -2,23 +2,24 @@ from bardolph.lib import i_lib
 from bardolph.lib.injection import bind
 
 class StdOutOutput(i_lib.Output):
-    def __init__(self):
-        self._line_pending = False
+    # The binding below creates a new object for every output call, so the
+    # state of the current line has to live in the class.
+    _line_pending = False
 
     def out(self, output):
-        if self._line_pending:
+        if StdOutOutput._line_pending:
             print(' ', end='')
 
-        self._line_pending = True
+        StdOutOutput._line_pending = True
         print(output, end='')
 
     def newline(self):
         print()
-        self._line_pending = False
+        StdOutOutput._line_pending = False
 
     def flush(self):
-        if self._line_pending:
-            self.newline()
+        # End of the script: the next one starts a fresh line state.
+        StdOutOutput._line_pending = False
 
 def configure():
     bind(StdOutOutput).to(i_lib.Output)
